@@ -6,6 +6,7 @@ import (
 	"go/ast"
 	"go/parser"
 	"go/token"
+	"strconv"
 	"strings"
 
 	"github.com/philhassey/goatlang"
@@ -91,7 +92,12 @@ func c05Eval(n *c05Node, env map[string]c05Val) (res c05Val) {
 		}
 	}()
 	if n.op == "" {
-		res = env[n.leaf]
+		if n.leaf != "" && n.leaf[0] >= '0' && n.leaf[0] <= '9' {
+			v, _ := strconv.Atoi(n.leaf)
+			res = c05Val{i: int32(v)}
+		} else {
+			res = env[n.leaf]
+		}
 	} else if n.op == "&&" || n.op == "||" {
 		l := c05Eval(n.l, env)
 		if l.err {
@@ -186,6 +192,8 @@ func c05FromGo(e ast.Expr) *c05Node {
 		return c05FromGo(x.X)
 	case *ast.Ident:
 		return &c05Node{leaf: x.Name}
+	case *ast.BasicLit:
+		return &c05Node{leaf: x.Value}
 	case *ast.UnaryExpr:
 		n := c05FromGo(x.X)
 		if n.un != "" {
@@ -405,7 +413,7 @@ func (w *c05Worker) checkExpr(r *core.Run, idx int, kind, expr string, alts []*c
 			if exp.isB {
 				wantT = "bool"
 			}
-			if !exp.err && o.Types[0] != wantT {
+			if !exp.err && o.Types[0] != wantT && !(wantT == "int32" && o.Types[0] == "number") { // an all-constant left operand of a shift stays untyped until it is used
 				got += " (" + o.Types[0] + ")"
 			}
 		}
@@ -518,11 +526,67 @@ func runC05(r *core.Run) {
 				}
 			}
 			jobs = append(jobs, job{kind: kind, expr: c05Flat(v), alts: alts})
+			// withLits returns t with a pseudo-random subset of its int leaves replaced by literals
+			withLits := func(t *c05Node, salt int) *c05Node {
+				u := c05Clone(t)
+				var ul []*c05Node
+				c05Leaves(u, &ul)
+				h := int(core.HashString(c05Flat(t))>>8) + salt
+				changed, vars := 0, 0
+				for i := range ul {
+					if ul[i].typ == 'i' && (h>>uint(i))&1 == 1 {
+						ul[i].leaf = []string{"1", "2", "3", "5", "7"}[(h+i)%5]
+						changed++
+					} else {
+						vars++
+					}
+				}
+				if changed == 0 || vars == 0 || c05ConstShiftLeft(u) {
+					return nil
+				}
+				return u
+			}
 			if withParens {
-				for _, a := range alts {
+				for ai, a := range alts {
 					jobs = append(jobs, job{kind: "parenthesised", expr: a.text(true)})
+					if u := withLits(a, ai); u != nil {
+						jobs = append(jobs, job{kind: "parenthesised-literals", expr: u.text(true)})
+					}
 				}
 				jobs = append(jobs, job{kind: "parenthesised", expr: v.text(true)})
+			}
+			if len(opsSeq) >= 4 {
+				for salt := 0; salt < 3; salt++ {
+					if u := withLits(v, salt*7); u != nil {
+						jobs = append(jobs, job{kind: "literal-operands", expr: c05Flat(u)})
+					}
+				}
+			}
+			// literal operands: small integer constants in place of variables (constant operands take
+			// other compiler paths - PUSH, constant folding of the peephole pass - than variables)
+			if len(opsSeq) <= 3 {
+				nl := len(leaves)
+				for mask := 1; mask < 1<<uint(nl); mask++ {
+					u := c05Clone(v)
+					var ul []*c05Node
+					c05Leaves(u, &ul)
+					ok, consts := true, 0
+					for i := 0; i < nl; i++ {
+						if mask>>uint(i)&1 == 1 {
+							if ul[i].typ != 'i' {
+								ok = false
+								break
+							}
+							ul[i].leaf = []string{"1", "2", "3", "5", "7"}[(i+mask)%5]
+							consts++
+						}
+					}
+					// the left operand of a shift keeps at least one variable: a run-time shift of an
+					// all-constant left operand is computed untyped (recorded finding K04)
+					if ok && consts < nl && !c05ConstShiftLeft(u) {
+						jobs = append(jobs, job{kind: "literal-operands", expr: c05Flat(u)})
+					}
+				}
 			}
 			if withUnary {
 				n := len(leaves)
@@ -579,8 +643,8 @@ func runC05(r *core.Run) {
 		}
 		before := len(jobs)
 		addSeq(seq, fmt.Sprintf("k=%d", k), false, false)
-		if len(jobs) > before+1 {
-			jobs = jobs[:before+1]
+		if len(jobs) > before+4 {
+			jobs = jobs[:before+4]
 		}
 	}
 	r.Count("operator_sequences_well_typed", seqs)
@@ -602,6 +666,23 @@ func runC05(r *core.Run) {
 			r.Count("kind:"+j.kind, 1)
 		}
 	})
+}
+
+func c05HasVar(n *c05Node) bool {
+	if n.op == "" {
+		return !(n.leaf != "" && n.leaf[0] >= '0' && n.leaf[0] <= '9')
+	}
+	return c05HasVar(n.l) || c05HasVar(n.r)
+}
+
+func c05ConstShiftLeft(n *c05Node) bool {
+	if n.op == "" {
+		return false
+	}
+	if (n.op == "<<" || n.op == ">>") && !c05HasVar(n.l) {
+		return true
+	}
+	return c05ConstShiftLeft(n.l) || c05ConstShiftLeft(n.r)
 }
 
 func c05WellTyped(n *c05Node) bool {
